@@ -11,22 +11,25 @@ import re
 import vf
 
 META = {
-    "text": "Theorems (Coq, no axioms) over an executable model of types.Tx.Validate, ValidateSystemTx, validateNameTx, "
-            "system/name/enterprise stateful validators, newSysCmd/newVoteCmd, ExecuteNameTx, ExecuteEnterpriseTx and the "
-            "mempool/executeTx dispatch, in which every index, slice, single-value type assertion and explicit panic is an "
-            "explicit Panic outcome: admission never panics and every admitted transaction executes without panic, for all "
-            "decoded payloads, all string-oracle functions and all states whose stored records are well formed (an invariant "
-            "proved for the enterprise state).  The model is the code after fixes/F3,F4,F15,F21.  Tie: the panic-site "
-            "inventory of the Go source is regenerated each run and its inclusion in the model's site list is a proof "
-            "obligation; the real validators and the real executor are run under recover() on structured and raw payloads "
-            "and the outcome classes and enterprise post-states are compared with the model by vm_compute.",
-    "note": "Trusted: Coq kernel/vm_compute; encoding/json decoding (the model starts from the decoded CallInfo); the string "
-            "oracles (DecodeAddress, base58+IDFromBytes, big.Int.SetString, ToUpper, ...) are arbitrary functions in the "
-            "theorems and the observed values in the correspondence; vote-result list handling (Sync/threshold/"
-            "deserializeVoteList), balances and the rest of cmd.run are outside the model and only exercised by the engine; "
-            "gen_panicsites has no type information (map and slice indexing both listed, reviewed list in Sites.v); the "
-            "engine replicates mempool.validateTx's governance dispatch.",
-    "technique": "Coq totality proofs over a Panic-explicit model + generated panic-site inventory obligation + vm_compute correspondence against the real validators/executor",
+    "text": "Theorems (Coq, no axioms) over an executable model of types.Tx.Validate, ValidateSystemTx, validateNameTx, the "
+            "system/name/enterprise stateful validators, newSysCmd/newVoteCmd, cmd.run of stake/unstake/voteBP/voteDAO (vote "
+            "tally load, SubVote, AddVote, Sync, refreshAllVote, threshold, record (de)serialisers), ExecuteNameTx, "
+            "ExecuteEnterpriseTx and the mempool/executeTx dispatch, in which every index, slice, single-value type assertion, "
+            "explicit panic, zero division and nil map-value dereference is an explicit Panic outcome.  Proved: admission never "
+            "panics and every transaction executes without panic on EVERY state reachable from genesis by executed governance "
+            "transactions (storage invariant Inv and key invariant KInv preserved by every step; no well-formedness assumption "
+            "on the state).  The model is the code after fixes F3,F4,F15,F24,F28,F29.  Tie: the panic-site inventory of every "
+            "function reachable from admission / governance execution is regenerated each run and its inclusion in the model's "
+            "reviewed site list is a proof obligation; the real validators and the real executor are run under recover() on "
+            "structured, life-cycle and raw payloads and outcome classes, enterprise post-states and every staking / vote / "
+            "vote-result record written are compared with the model by vm_compute.",
+    "note": "Hypotheses of the reachable-state theorems: encoding/json round trip of a one-element string list; DecodeAddress "
+            "results are short; base58.Decode length consistency; records written < 2^32 bytes and amounts < 2^304 (total supply "
+            "bound, C01); genesis BP ids are 39-byte peer ids.  Trusted: Coq kernel/vm_compute; JSON decoding (the model starts "
+            "from the decoded CallInfo); string oracles; vprt.go (in-memory voting power rank), balances and DB errors are "
+            "outside the model and exercised by the engine only; gen_panicsites has no type information (name-based "
+            "reachability, reviewed list in Sites.v); the engine replicates mempool.validateTx's governance dispatch.",
+    "technique": "Coq invariant/totality proofs over a Panic-explicit model + generated panic-site inventory obligation + vm_compute correspondence (outcomes and written records) against the real validators/executor",
 }
 
 GOV, NORMAL, REDEPLOY, FEEDELEG, TRANSFER, CALL, DEPLOY, MULTICALL = 1, 0, 2, 3, 4, 5, 6, 7
@@ -227,7 +230,7 @@ def gen_cases(ctx, extra_bias=None):
     setups = {"aergo.system": SYS_SETUP, "aergo.name": NAME_SETUP, "aergo.enterprise": ENT_SETUP}
     # staking / voting life cycles over several blocks: re-votes (SubVote old + AddVote new), partial and
     # full unstake (refreshAllVote over every issue), two voters sharing candidates
-    for _ in range(3 if quick else 40):
+    for _ in range(3 if quick else 120):
         gi = newg()
         ps = [peer_id(rng) for _ in range(4)]
         fork = rng.choice([2, 3])
@@ -280,7 +283,7 @@ def gen_cases(ctx, extra_bias=None):
             c2[ak] = c2[ak][:k]
             cases.append(mk(gi, rcpt, c2, amt=amt, raft=(c.get("name") == "changeCluster")))
     # random sequences of mutated commands
-    nseq = (15 if quick else 800) * (3 if extra_bias else 1)
+    nseq = (15 if quick else 2500) * (3 if extra_bias else 1)
     for _ in range(nseq):
         gi = newg()
         rcpt = extra_bias if extra_bias and rng.random() < 0.8 else rng.choice(list(setups))
@@ -312,7 +315,7 @@ def gen_cases(ctx, extra_bias=None):
     cases.append(mk(gi, "aergo.system", '{"Name":"v1stake"}', raft=True))
     cases.append(mk(gi, "aergo.enterprise", '{"name":"appendAdmin","args":["@A0"]}', pub=True))
     # raw byte stream: random bytes and byte-level mutations of valid payloads
-    nraw = 25 if quick else 2000
+    nraw = 25 if quick else 5000
     seeds = [json.dumps(c).encode() for _, c, _ in rs]
     for _ in range(nraw):
         gi = newg()
@@ -530,9 +533,11 @@ def run(ctx):
         "gen_panicsites (go/parser, no type information) and the reviewed site list AdmitTotal/Sites.v",
         "engine harness/engines/admit (replicates mempool.validateTx's governance dispatch)", "case generator checks/C14.py, error-text classifier",
     ]
-    ctx.assumptions = ["stored staking / vote / name-map / conf records are well formed (state_wf); proved invariant for enterprise conf records",
+    ctx.assumptions = ["json.Unmarshal(json.Marshal([s])) = [s]; DecodeAddress results are short; base58.Decode length consistency",
+                       "records written are shorter than 2^32 bytes, amounts below 2^304 (total supply bound)",
+                       "genesis BP vote list = serialisation of a tally with 39-byte peer-id keys",
                        "string functions (DecodeAddress, base58+IDFromBytes, SetString, ToUpper, ParseListEntry, ...) are total oracles",
-                       "vote-result list handling and balance arithmetic of cmd.run are outside the model (engine only)"]
+                       "vprt.go (voting power rank), balances, DB errors are outside the model (engine only)"]
     rc, log, binp = ctx.go_test_binary("chain", [os.path.join(vf.HARNESS, "engines/admit/zz_verif_c14_engine_test.go")], "admit.test")
     if rc != 0:
         raise RuntimeError("admit engine build failed:\n" + log[-3000:])
